@@ -62,7 +62,7 @@ func TestMain(m *testing.M) {
 	}
 	harness.Run(&harness.Prop{
 		ID: "C19",
-		Rule: "the shipped handleMessages/handleClientMessages/handleServerMessages/keepCircularQueueUpdated of the proxy (in-package harness, package globals set as start() sets them) over two harness-owned net.Conn values whose Read is a scheduling and chunking choice point and whose Write records; a status thread calls ReportFeed.Status() twice at scheduler-chosen moments. Client streams: frame whose payload reads '<b>', HTML-looking junk before a frame, CRC-valid MSM frames with short or inconsistent content before a frame, two frames, plain junk; server streams: text and binary. plus bursts of 2047, 2048, 2049 and 4096 bytes (the relay's read buffer is 2048 bytes) in both directions under the default schedule. All chunkings and interleavings in the unbounded pass where it completes, otherwise deviation bound 2. Oracle: at quiescence upstream sink == client bytes and client sink == server bytes; no panic; every report's message list is (after un-escaping) the display of a prefix of the sequential framing of the client stream; the number of '<' and '>' in every report equals that of the fixed template. Non-trivial = distinct schedule trace",
+		Rule: "the shipped handleMessages/handleClientMessages/handleServerMessages/keepCircularQueueUpdated of the proxy (in-package harness, package globals set as start() sets them) over two harness-owned net.Conn values whose Read is a scheduling and chunking choice point and whose Write records; a status thread calls ReportFeed.Status() twice at scheduler-chosen moments. Client streams: frame whose payload reads '<b>', HTML-looking junk before a frame, CRC-valid MSM frames with short or inconsistent content before a frame, two frames, plain junk; server streams: text and binary. plus scenarios in which one peer stops reading (its Write blocks) while the other direction has traffic, and bursts of 2047, 2048, 2049 and 4096 bytes (the relay's read buffer is 2048 bytes) in both directions under the default schedule. All chunkings and interleavings in the unbounded pass where it completes, otherwise deviation bound 2. Oracle: at quiescence upstream sink == client bytes and client sink == server bytes; no panic; every report's message list is (after un-escaping) the display of a prefix of the sequential framing of the client stream; the number of '<' and '>' in every report equals that of the fixed template. Non-trivial = distinct schedule trace",
 		Assumptions: []string{"TCP is replaced by in-memory net.Conn values: Read returns what was sent in explorer-chosen chunks, a server Read with nothing left blocks until the connection is closed, the client reports EOF only after the server's bytes have reached it; the kernel's segmentation and timing are outside the check", "the status HTTP server (go-tools dependency) is not started; ReportFeed.Status is called directly", "the daily RTCM log is a real dailylogger.Writer with logging disabled (file handling belongs to the dependency)", "'HTML-escaped' is judged on '<' and '>' only, which is what Sanitise defines"},
 		Scenarios:      scenarios,
 		QuickBudget:    60 * time.Second,
@@ -82,6 +82,9 @@ type conn struct {
 	eofAfter  chan struct{} // when non-nil: EOF is reported only after this is closed
 	blockAtEnd bool         // Read with nothing left blocks until Close
 	onWrite   func()
+	// writeGate, when non-nil, makes Write block until the gate is closed: the
+	// peer has stopped reading and the TCP buffers are full
+	writeGate chan struct{}
 }
 
 func (c *conn) Read(p []byte) (int, error) {
@@ -110,6 +113,9 @@ func (c *conn) Read(p []byte) (int, error) {
 func (c *conn) Write(p []byte) (int, error) {
 	if c.closed {
 		return 0, errClosed
+	}
+	if c.writeGate != nil {
+		mcrt.Recv2(c.writeGate)
 	}
 	n, err := c.out.Write(p)
 	if c.onWrite != nil {
@@ -142,6 +148,18 @@ type obsT struct {
 	reports            []string
 	returned           bool
 	queueAtEnd         []rtcm.Message
+	upAtStall          int
+	downAtStall        int
+	stallSeen          bool
+}
+
+func allZero(c []int) bool {
+	for _, v := range c {
+		if v != 0 {
+			return false
+		}
+	}
+	return true
 }
 
 // expectedDisplays is the display text of each message of the sequential
@@ -322,6 +340,77 @@ func scenarios(tier string) []*mcrt.Scenario {
 				})
 			}
 		}
+	}
+	// one peer stops reading for a while (its side's Write blocks) while the other
+	// direction still has traffic: that direction must not be held up.  The gate is
+	// opened by a thread that runs only when nothing else can, and at that moment
+	// the traffic of the free direction must already have been relayed.
+	for _, blocked := range []string{"client-not-reading", "server-not-reading"} {
+		blocked := blocked
+		cdata := append(append([]byte{}, f...), []byte("GET /x\r\n")...)
+		sdata := []byte("ICY 200 OK\r\n")
+		scs = append(scs, &mcrt.Scenario{
+			Name: "stalled-peer " + blocked, Bound: 1, Horizon: 50000, Prune: true,
+			Body: func(x *mcrt.X) {
+				obs := &obsT{toServer: &hsink.Sink{Name: "upstream"}, toClient: &hsink.Sink{Name: "client"}}
+				x.Data = obs
+				byteChan = make(chan byte)
+				messageChan = make(chan rtcm.Message)
+				rtcmHandler = rtcm.New(t0, slog.LevelInfo)
+				mcrt.Go("HandleMessages", func() { rtcmHandler.HandleMessages(byteChan, messageChan) })
+				recentMessages = circularQueue.NewCircularQueue(maxNumberOfMessagesStored)
+				mcrt.Go("keepCircularQueueUpdated", func() { keepCircularQueueUpdated(messageChan, recentMessages) })
+				rtcmLog = realLog
+				SetReportFeed(reportfeed.New(rtcmLog, recentMessages))
+				gate := make(chan struct{})
+				serverDone := make(chan struct{})
+				doneClosed := false
+				cl := &conn{name: "client", rd: &hsink.ChunkReader{Data: cdata, Sizes: []int{0, 3}}, out: obs.toClient, closedCh: make(chan struct{}), eofAfter: serverDone}
+				sv := &conn{name: "server", rd: &hsink.ChunkReader{Data: sdata, Sizes: []int{0, 2}}, out: obs.toServer, closedCh: make(chan struct{}), blockAtEnd: true}
+				if blocked == "client-not-reading" {
+					cl.writeGate = gate
+				} else {
+					sv.writeGate = gate
+				}
+				cl.onWrite = func() {
+					if !doneClosed && obs.toClient.Len() >= len(sdata) {
+						doneClosed = true
+						mcrt.Close(serverDone)
+					}
+				}
+				mcrt.GoLow("peer-resumes-reading", func() {
+					mcrt.Sleep(time.Second)
+					// nothing else could run: what has the free direction delivered?
+					obs.upAtStall, obs.downAtStall = obs.toServer.Len(), obs.toClient.Len()
+					mcrt.Note(uint64(obs.upAtStall)<<16 | uint64(obs.downAtStall))
+					obs.stallSeen = true
+					mcrt.Close(gate)
+				})
+				handleMessages(sv, cl, false, 1)
+				obs.returned = true
+			},
+			Check: func(x *mcrt.X) *mcrt.Failure {
+				obs := x.Data.(*obsT)
+				if len(x.Panics) > 0 {
+					p := x.Panics[0]
+					return &mcrt.Failure{Kind: "panic in " + p.Thread + ": " + first(p.Value) + " @" + p.Site, Detail: p.Stack}
+				}
+				if !bytes.Equal(obs.toServer.Buf, cdata) || !bytes.Equal(obs.toClient.Buf, sdata) {
+					return &mcrt.Failure{Kind: "upstream-did-not-receive-exactly-the-client-bytes", Detail: fmt.Sprintf("stalled peer: upstream %d/%d, client %d/%d; end=%s blocked=%v", len(obs.toServer.Buf), len(cdata), len(obs.toClient.Buf), len(sdata), x.End, x.Blocked)}
+				}
+				// only the default placement of the gate opener (as late as possible) is judged
+				if obs.stallSeen && len(x.Choices) > 0 && allZero(x.Choices) {
+					if blocked == "client-not-reading" && obs.upAtStall != len(cdata) {
+						return &mcrt.Failure{Kind: "relay-withheld-while-the-other-peer-is-not-reading", Detail: fmt.Sprintf("client stopped reading: upstream had only %d of %d client bytes when nothing else could run", obs.upAtStall, len(cdata))}
+					}
+					if blocked == "server-not-reading" && obs.downAtStall != len(sdata) {
+						return &mcrt.Failure{Kind: "relay-withheld-while-the-other-peer-is-not-reading", Detail: fmt.Sprintf("server stopped reading: the client had only %d of %d server bytes when nothing else could run", obs.downAtStall, len(sdata))}
+					}
+				}
+				harness.Outcome("stalled peer " + blocked)
+				return nil
+			},
+		})
 	}
 	// bursts that exactly fill, just miss and overflow the relay's 2048-byte
 	// read buffer (default schedule and default chunking: everything that fits)
